@@ -98,7 +98,8 @@ chk("C11", MC,
 chk("C14", MC,
     "The real Terminal.to_operational/get_state/set_state coroutines (through the real roundtrip encoding) run symbolically "
     "against an AL-register terminal model on a deterministic event loop; start state, error flag, status code, unused status "
-    "bits, polls per transition (0..2, thorough 0..3) and the poll at which an error appears are solver variables, targets "
+    "bits, polls per transition (0..2, thorough 0..3), the polls an acknowledged terminal needs to leave the state it reported "
+    "(0..1, thorough 0..3) and the poll at which an error appears are solver variables, targets "
     "enumerated. The recorded AL-control writes / AL-status reads are checked: ack first, one step at a time in order, never "
     "above target, next request only after the previous state was reported, return/raise conditions. All paths explored.",
     PY_NOTE + " AL state machine model written from ETG.1000.6 (protocol-conformant terminal).",
@@ -132,7 +133,8 @@ chk("C16", MC,
 
 chk("C17", MC,
     "The real Terminal._eeprom_read_one/read_eeprom run symbolically against an SII register model (image content, identity "
-    "words, category word-lengths 0..3 (6), busy polls, 4-/8-byte read capability symbolic; category types enumerated): "
+    "words, category word-lengths 0..3 (6), busy polls -- the data register keeps the previous words while busy --, 4-/8-byte "
+    "read capability symbolic; category types enumerated): "
     "identity fields and every category's bytes are returned exactly as stored. parse_sync_managers on 1..4 fully symbolic "
     "entries and parse_pdos (EEPROM source) on PDO lists with symbolic bit lengths and solver-chosen gaps: every area / "
     "entry gets the stored offset, size, bit position; misaligned byte entries are rejected.",
@@ -221,7 +223,8 @@ chk("C19", TV,
     "fast path = emitted bytes of the device program in a real FastSyncGroup executed symbolically over a symbolic frame and map; "
     "slow path = real PacketVar.get/set executed symbolically on a symbolic bytearray; both compared with one reference whose "
     "positions are parsed from the assembled frame's datagram table and the FMMU logical addresses; frame condition with a "
-    "symbolic byte index",
+    "symbolic byte index; in every third layout the same device object was first laid out and assembled in another group "
+    "whose leading terminal shifts all regions",
     BASE_NOTE, "symbolic execution of the emitted eBPF bytes (z3 bit-vectors) and of the Python source against a common reference", "A:8/C19")
 
 chk("C29", MC,
@@ -232,7 +235,7 @@ chk("C29", MC,
 
 chk("C08", TV,
     "seeded random declaration sets (array and per-CPU maps declared in the program or a base class, variables of all integer, "
-    "x and multi-element formats in base class, program and 1-2 subprogram instances, overridden names): layout disjointness; "
+    "x, multi-element and byte-order-prefixed formats in base class, program and 1-2 subprogram instances, overridden names): layout disjointness; "
     "program side = emitted bytes executed symbolically over a symbolic map (reads with sign, writes, frame condition with a "
     "symbolic address); Python side = real descriptors executed symbolically on symbolic map bytes and symbolic per-CPU lookup "
     "results; both against one byte-level reference",
@@ -259,7 +262,9 @@ chk("C04", TV,
     "seeded random programs (main and subprogram locals of all sizes with several instances, array-map and hash-map variables, "
     "Dict key/value members; 4-8 statements: copies, moves, arithmetic with temporaries, hash variable := expression, "
     "comparisons, Dict update/lookup): the emitted bytes run symbolically over symbolic inputs; every variable copied out at "
-    "the end must hold the value last assigned to it (plain store reference); all memory accesses inside their regions",
+    "the end must hold the value last assigned to it (plain store reference); all memory accesses inside their regions; "
+    "counted variables (4H, 2I, ...) declared among the others keep their whole extent clear of every other variable "
+    "(interval check on the generator's addresses)",
     BASE_NOTE + " Subprogram locals overlapping another instance's local are a recorded finding and outside the claim.",
     "symbolic execution of the emitted eBPF bytes (z3 bit-vectors) against a plain store reference", "A:8/C04")
 
